@@ -10,6 +10,10 @@ operations on a small hand-registered database (rebuilt for every history).
 """
 from collections import OrderedDict
 
+# the histories of this check run on hand-registered databases rebuilt per history: the warm regime of the
+# thorough tier (worlds.warm_up on the shipped table) would only repeat the same exploration
+WARM_REGIME = False
+
 import numpy as np
 
 from barril.units import Array, FractionScalar, ObtainQuantity, Quantity, Scalar, UnitDatabase
